@@ -5,10 +5,12 @@ mod alloc;
 mod case;
 mod controller;
 mod corpus_def;
+mod pcorpus_def;
 mod eval;
 mod legs;
 mod minimise;
 mod props;
+mod pwire;
 mod refenc;
 mod rng;
 mod stream;
@@ -23,6 +25,11 @@ pub mod gen {
 #[allow(warnings, clippy::all)]
 pub mod gen_keep {
     include!(concat!(env!("OUT_DIR"), "/corpus_keep_gen.rs"));
+}
+
+#[allow(warnings, clippy::all)]
+pub mod pgen {
+    include!(concat!(env!("OUT_DIR"), "/pcorpus_gen.rs"));
 }
 
 #[global_allocator]
@@ -52,6 +59,8 @@ fn default_units(prop: &str, tier: Tier) -> u64 {
         ("C07", Tier::Thorough) => 3_000_000,
         ("C09", Tier::Quick) => 800,
         ("C09", Tier::Thorough) => 12_000,
+        ("C10", Tier::Quick) => 2_000,
+        ("C10", Tier::Thorough) => 60_000,
         ("C19", Tier::Quick) => 500,
         ("C19", Tier::Thorough) => 8_000,
         _ => 100,
@@ -108,7 +117,7 @@ fn main() {
 
 fn run(args: &[String]) {
     let prop = arg(args, "--prop").unwrap_or_else(|| usage()).to_string();
-    if !["C07", "C09", "C12", "C19"].contains(&prop.as_str()) {
+    if !["C07", "C09", "C10", "C12", "C19"].contains(&prop.as_str()) {
         usage();
     }
     let tier = match arg(args, "--tier") {
